@@ -112,6 +112,11 @@ func (x *Exec) Run() (err error) {
 				x.warn("waiver %s at %q unused", wv.Kind, wv.Text)
 			}
 		}
+		for _, a := range x.contract.Asserts {
+			if !x.assertsDone[a] {
+				panic(unsupported("assert anchor \"" + a.Text + "\" not found (contract-anchor-lost)"))
+			}
+		}
 		for _, c := range x.contract.Cuts {
 			if !x.cutsDone[c] {
 				panic(unsupported("cut anchor \"" + c.Text + "\" not found (contract-anchor-lost)"))
@@ -331,6 +336,7 @@ func (x *Exec) runBlock(b *ssa.BasicBlock) {
 
 	for _, ins := range b.Instrs {
 		x.curInstr = ins
+		x.maybeAssert(ins)
 		x.maybeCut(ins)
 		x.step(ins, preds, conds)
 	}
@@ -399,6 +405,35 @@ func (x *Exec) maybeCut(ins ssa.Instruction) {
 		x.curPC = npc
 		o := x.oblige(cid+"/cover", "cover", npc, tFalse, "cut assumption satisfiable", pos)
 		o.MustFail = true
+	}
+}
+
+// maybeAssert implements "assert before <text>#n: e": e is proved at the first instruction on
+// the n-th source line containing the text and is then available as a lemma.
+func (x *Exec) maybeAssert(ins ssa.Instruction) {
+	if x.contract == nil || len(x.contract.Asserts) == 0 {
+		return
+	}
+	pos := ins.Pos()
+	if !pos.IsValid() {
+		return
+	}
+	text := x.lineText(pos)
+	for k, a := range x.contract.Asserts {
+		if x.assertsDone[a] || !strings.Contains(text, a.Text) {
+			continue
+		}
+		if x.cutLine(&CutSpec{Text: a.Text, Ord: a.Ord}) != x.w.fset.Position(pos).Line {
+			continue
+		}
+		x.assertsDone[a] = true
+		t := x.evalBool(a.Clause, x.envAt(pos))
+		if !a.Assume {
+			x.oblige(fmt.Sprintf("assert/%d", k+1), "assert", x.curPC, t, a.Clause.Text, pos)
+		} else {
+			x.w.noteTrusted(x.name+" assume", a.Clause.Text)
+		}
+		x.vc.assume(mkImp(x.curPC, t))
 	}
 }
 
